@@ -185,6 +185,10 @@ func cmdRun(args []string) int {
 		}
 		var res *HarnessResult
 		if h.Mode == "sched" {
+			schedTimeout := timeoutMs
+			if schedTimeout > 60000 {
+				schedTimeout = 60000 // schedule queries: one minute each in every tier
+			}
 			list := h.QuickScenarios
 			if *tier == "thorough" {
 				list = h.ThoroughScenarios
@@ -198,7 +202,7 @@ func cmdRun(args []string) int {
 					}
 				}
 			}
-			res = RunSchedList(l, f, params, list, *workers, timeoutMs, *verbose)
+			res = RunSchedList(l, f, params, list, *workers, schedTimeout, *verbose)
 		} else {
 			ex := &Explorer{L: l, Fn: f, Params: params, Workers: *workers, TimeoutMs: timeoutMs, Verbose: *verbose}
 			if mp, ok := params["max_paths"]; ok {
@@ -222,7 +226,16 @@ func cmdRun(args []string) int {
 			inconclusive = append(inconclusive, fmt.Sprintf("%s: engine error x%d: %s", h.Fn, n, msg))
 		}
 		if res.Unknown > 0 || res.NUnknown > 0 {
-			inconclusive = append(inconclusive, fmt.Sprintf("%s: %d solver unknown/timeout", h.Fn, res.Unknown+res.NUnknown))
+			if h.Mode == "sched" {
+				// a schedule query the solver did not decide in time leaves its
+				// combination undecided (counted, outside the claim)
+				if res.Undecided == nil {
+					res.Undecided = map[string]int{}
+				}
+				res.Undecided["solver gave no verdict within the time limit"] += res.Unknown + res.NUnknown
+			} else {
+				inconclusive = append(inconclusive, fmt.Sprintf("%s: %d solver unknown/timeout", h.Fn, res.Unknown+res.NUnknown))
+			}
 		}
 		for _, e := range res.SolverErrors {
 			inconclusive = append(inconclusive, h.Fn+": solver error: "+e)
@@ -475,6 +488,11 @@ func writeEvidence(vd, prop, tier string, seed int, spec *PropertySpec, results 
 			key := k
 			if i := strings.Index(key, ": "); strings.HasPrefix(key, "scenario ") && i > 0 {
 				key = key[i+2:]
+			}
+			if strings.HasPrefix(key, "time budget") {
+				if j := strings.Index(key, ":"); j > 0 {
+					key = key[:j] + ": not every trace combination examined"
+				}
 			}
 			if strings.HasPrefix(key, "combination budget") {
 				if j := strings.Index(key, ":"); j > 0 {
